@@ -337,6 +337,9 @@ def gen_xproc(rng, n):
     # at least one type and one program
     objs.append([0, gen_ty(rng, 2)])
     objs.append([1, gen_prog(rng, 2)])
+    # a constant explicitly holding None (has_value=True) and a falsy value, alone: the flag itself must survive
+    objs.append([1, [2, gen_ty(rng, 1), [0], 1]])
+    objs.append([1, [2, gen_ty(rng, 1), rng.choice([[1, 0], [3, 0], [4, [4]]]), rng.choice([0, 1])]])
     return objs
 
 
